@@ -15,7 +15,9 @@ class MSSQLQuery(Query):
     Defines a query class for use with Microsoft SQL Server.
     """
 
-    SQL_CONTEXT = DEFAULT_SQL_CONTEXT.copy(dialect=Dialects.MSSQL)
+    # MSSQL does not support GROUP BY <select alias>: part of the dialect's context, so that it also governs
+    # set operations and queries built with other classes that are rendered under it
+    SQL_CONTEXT = DEFAULT_SQL_CONTEXT.copy(dialect=Dialects.MSSQL, groupby_alias=False)
 
     @classmethod
     def _builder(cls, **kwargs: Any) -> "MSSQLQueryBuilder":
